@@ -3,6 +3,6 @@ CONSTANTS
   T <- TraceT
   StrictA = FALSE
   CheckCat = FALSE
-INVARIANTS WellFormed
+INVARIANTS WellFormed OtherWellFormed
 POSTCONDITION TraceAccepted
 CHECK_DEADLOCK FALSE
